@@ -423,9 +423,12 @@ pub fn gen_c01(rng: &mut Rng, idx: u64) -> H1Scenario {
     let cfg = Cfg {
         keep_alive: ka,
         write_buf: *rng.pick(&[1usize, 64, 1024, 32768]),
+        // with a disconnect timeout the dispatcher ends an errored connection through the
+        // time-bounded shutdown (flush first) instead of dropping it at once
+        disc_timeout_ms: if rng.chance(1, 3) { 1000 } else { 0 },
         ..Default::default()
     };
-    let horizon = total_delay(&conn.segs) + 3000;
+    let horizon = total_delay(&conn.segs) + 3000 + cfg.disc_timeout_ms;
     finish(&note, cfg, conn, gates, gen_sched(rng), horizon)
 }
 
